@@ -96,12 +96,11 @@ def translate_c_to_cirq(source_circuit, noise_model=None, save_measurements=Fals
         if gate.control is not None:
             num_controls = len(gate.control)
             control_list = [qubit_list[c] for c in gate.control]
-            if gate.name == 'CNOT' and num_controls > 1:
-                gate.name = 'CX'
         if gate.name in {"H", "X", "Y", "Z", "S", "SDAG", "T"}:
             target_circuit.append(GATE_CIRQ[gate.name](qubit_list[gate.target[0]]))
-        elif gate.name in {"CH", "CX", "CY", "CZ"}:
-            next_gate = GATE_CIRQ[gate.name].controlled(num_controls)
+        elif gate.name in {"CH", "CX", "CY", "CZ"} or (gate.name == "CNOT" and num_controls > 1):
+            # A multi-controlled CNOT is a multi-controlled X (the source gate is left untouched)
+            next_gate = GATE_CIRQ["CX" if gate.name == "CNOT" else gate.name].controlled(num_controls)
             target_circuit.append(next_gate(*control_list, qubit_list[gate.target[0]]))
         elif gate.name in {"RX", "RY", "RZ"}:
             next_gate = GATE_CIRQ[gate.name](gate.parameter)
